@@ -201,7 +201,7 @@ func c12(run *core.Run, replay string) {
 	}
 	var cases []*entCase
 	sizes := []int{0, 1, 2, 3, 4, 5, 7, 8, 15, 16, 17, 31, 32, 33, 63, 64, 65, 127, 128, 255, 256, 257, 1023, 1024, 1025, 4096, 8191, 16383, 16384, 16385, 20000, 32767, 32768, 32769, 49151, 49153, 65535, 65536, 65537, 100000}
-	shapes := []string{"text", "random", "raredom", "ramp255", "ramp256", "skewed", "zeros", "runs", "smallalpha", "dna", "cjk", "wav", "elfx86", "periodic", "sorted", "base64", "numeric"}
+	shapes := []string{"text", "random", "raredom", "ramp255", "ramp256", "skewed", "zeros", "runs", "smallalpha", "dna", "cjk", "wav", "elfx86", "periodic", "sorted", "base64", "numeric", "constchunks", "longruns"}
 	for _, codec := range kz.Entropies {
 		for si, sz := range sizes {
 			for hi, sh := range shapes {
